@@ -390,12 +390,12 @@ theorem c10_failure_before_head_is_5xx (cfg : Cfg) (st : St) (e : End)
     every history that led to the state. -/
 theorem c10_failure_after_head_aborts (cfg : Cfg) (st : St) (e : End)
     (hv : cfg.ver ≤ 1) (hc : st.cstate = .write) (ho : st.open_ = true) (hs : st.started = true)
-    (hsent : st.hdrSent = true) (he : FailEnd cfg st e) :
+    (hsent : st.hdrSent = true) (hbl : bodiless cfg st = false) (he : FailEnd cfg st e) :
     (onEnd cfg st e).keepAlive = false ∧ (onEnd cfg st e).cstate = .done ∧
     (onEnd cfg st e).handler = false ∧ (onEnd cfg st e).evs = pushW st.evs st.wq := by
   have hv2 : ¬ (cfg.ver ≥ 2) := by omega
   rw [onEnd_active cfg st e (Or.inr hc) ho he.ne_none (by simp [lostHandler, hc]),
-      gwRecvEnd_fail cfg st e hs he, gwBackendError_sent cfg st hs hsent]
+      gwRecvEnd_fail cfg st e hs he, gwBackendError_sent cfg st hs hsent hbl]
   simp [conStep, hc, hv2, h1Progress, flush]
 
 /-- **Backend failure after the backend's head was parsed but before the client-side head was
@@ -405,13 +405,13 @@ theorem c10_failure_after_head_aborts (cfg : Cfg) (st : St) (e : End)
     partial body under a computed Content-Length. -/
 theorem c10_failure_before_client_head_is_502 (cfg : Cfg) (st : St) (e : End)
     (hv : cfg.ver ≤ 1) (hc : st.cstate = .handle) (ho : st.open_ = true) (hs : st.started = true)
-    (hh : st.handler = true) (hsent : st.hdrSent = false) (he : FailEnd cfg st e) :
+    (hh : st.handler = true) (hsent : st.hdrSent = false) (hbl : bodiless cfg st = false) (he : FailEnd cfg st e) :
     (onEnd cfg st e).status = 502 ∧ (onEnd cfg st e).cstate = .done ∧
     (onEnd cfg st e).keepAlive = st.keepAlive ∧
     ∃ fields, (onEnd cfg st e).evs = pushW st.evs
       (h1StatusLine cfg 502 ++ fields ++ crlf ++ crlf ++ (if cfg.head then [] else errorPage 502)) := by
   rw [onEnd_active cfg st e (Or.inl hc) ho he.ne_none (by simp [lostHandler, hh]),
-      gwRecvEnd_fail cfg st e hs he, gwBackendError_unsent cfg st hs hsent]
+      gwRecvEnd_fail cfg st e hs he, gwBackendError_unsent cfg st hs hsent hbl]
   obtain ⟨b1, b2, b3, b4, b5, _⟩ := backendIncomplete_proj st
   generalize hst1 : ({ (backendIncomplete st) with open_ := false } : St) = st1
   have s1 : st1.status = 502 := by rw [← hst1]; exact b1
@@ -515,10 +515,10 @@ theorem c10_clean_eof_terminates_chunked (cfg : Cfg) (st : St)
     check's real-server stream.) -/
 theorem c10_h2_failure_resets_stream (cfg : Cfg) (st : St) (e : End)
     (hv : cfg.ver ≥ 2) (hc : st.cstate = .write) (ho : st.open_ = true) (hs : st.started = true)
-    (hsent : st.hdrSent = true) (he : FailEnd cfg st e) :
+    (hsent : st.hdrSent = true) (hbl : bodiless cfg st = false) (he : FailEnd cfg st e) :
     (onEnd cfg st e).cstate = .done ∧ (onEnd cfg st e).evs = st.evs ++ [.rst] := by
   rw [onEnd_active cfg st e (Or.inr hc) ho he.ne_none (by simp [lostHandler, hc]),
-      gwRecvEnd_fail cfg st e hs he, gwBackendError_sent cfg st hs hsent]
+      gwRecvEnd_fail cfg st e hs he, gwBackendError_sent cfg st hs hsent hbl]
   simp [conStep, hc, hv, h2Progress]
 
 /-- ... and so does a body cut short by backend EOF (short of Content-Length / inside a chunked body). -/
@@ -627,7 +627,7 @@ inductive Broken (cfg : Cfg) (st : St) : End → Prop
   /-- the backend goes away (any way) before its response head is complete -/
   | noHead (e : End) : st.started = false → st.status = 0 → st.fcgi.ended = false → e ≠ .none → Broken cfg st e
   /-- connection reset / socket error / FastCGI end of stream without END_REQUEST, body not finished -/
-  | failed (e : End) : st.started = true → FailEnd cfg st e → Broken cfg st e
+  | failed (e : End) : st.started = true → bodiless cfg st = false → FailEnd cfg st e → Broken cfg st e
   /-- backend EOF short of the announced Content-Length or inside a chunked body -/
   | truncated : st.started = true → cfg.be ≠ .fcgi → bodyTruncated cfg st = true →
       (st.sendChunked = true → st.dc.isSome = true) → Broken cfg st .eof
@@ -657,13 +657,13 @@ theorem c10_broken_never_complete (cfg : Cfg) (st : St) (e : End) (hv : cfg.ver 
       obtain ⟨a, b, _, ⟨f, d⟩⟩ := c10_failure_before_head_is_5xx cfg st e hv hc ho hs hh h0 hne hfe
       exact ⟨Or.inl a, b, ⟨f, by rw [a]; exact d⟩⟩
     · rw [hs] at hs'; cases hs'
-  | failed e hs hfail =>
+  | failed e hs hbl hfail =>
     rcases hcons with ⟨hc, hsent⟩ | ⟨hc, hsent, _⟩
     · left
-      obtain ⟨a, b, _, ⟨f, d⟩⟩ := c10_failure_before_client_head_is_502 cfg st e hv hc ho hs hh hsent hfail
+      obtain ⟨a, b, _, ⟨f, d⟩⟩ := c10_failure_before_client_head_is_502 cfg st e hv hc ho hs hh hsent hbl hfail
       exact ⟨Or.inr a, b, ⟨f, by rw [a]; exact d⟩⟩
     · right
-      obtain ⟨a, b, _, d⟩ := c10_failure_after_head_aborts cfg st e hv hc ho hs hsent hfail
+      obtain ⟨a, b, _, d⟩ := c10_failure_after_head_aborts cfg st e hv hc ho hs hsent hbl hfail
       exact ⟨a, b, d⟩
   | truncated hs hbe ht hpt =>
     rcases hcons with ⟨hc, hsent⟩ | ⟨hc, hsent, _⟩
@@ -692,7 +692,7 @@ theorem c10_failure_isolated_partial (cfg : Cfg) (st : St) (e : End) (hv : cfg.v
   refine ⟨?_, fun hk => c10_keepalive_requires_framing cfg st hv hh hk⟩
   cases hb with
   | noHead e hs _ _ _ => rw [hst] at hs; cases hs
-  | failed e hs hfail => exact (c10_failure_after_head_aborts cfg st e hv hc ho hs hsent hfail).1
+  | failed e hs hbl hfail => exact (c10_failure_after_head_aborts cfg st e hv hc ho hs hsent hbl hfail).1
   | truncated hs hbe ht hpt => exact (c10_truncated_after_head_closes cfg st hv hbe hc ho hhd hf hsent ht hpt).1
 
 /-! non-vacuity of the composite theorems: concrete reachable states / complete runs -/
